@@ -18,3 +18,4 @@ def build(run):
     PP.masses_setter_index_functions(run)      # mass scaling reaches all three cells consistently
     run.not_decided += ["invariance of the spectrum under q -> q + G and q -> R q (needs angle addition and unitary similarity of spectra)",
                         "three zero eigenvalues at Gamma from the acoustic sum rule (eigenvalue reasoning)"]
+    run.axioms += ["A-UNIF: numpy vectorised operations / reductions are uniform in the array length: the contracts of vectorised Python glue are proved on a generic small instance with distinct symbolic elements (two symmetry operations) and taken to hold for every length"]
